@@ -147,19 +147,37 @@ def tree_hash(kc):
 
 
 def run_harnesses(names, work, log, extra_args=(), timeout=1200, jobs=8, target='--lib'):
-    """one cargo-kani invocation for several harnesses; returns {name: dict(status, time_s, output)}"""
+    """one cargo-kani invocation for the harnesses that have no memoised result for this exact crate tree; returns {name: dict(status, time_s, output)}"""
     variant = 'std'
     if '--no-default-features' in extra_args:
         variant = 'alloc' if 'alloc' in extra_args else 'noalloc'
     kc = prepare_crate(work, variant)
-    key = hashlib.sha256((tree_hash(kc) + ' '.join(sorted(names)) + ' '.join(extra_args) + target).encode()).hexdigest()
-    cp = os.path.join(CACHE, 'kani-' + key + '.json')
-    if os.path.exists(cp) and not os.environ.get('VERIF_NO_CACHE'):
-        log('kani: cached result (%s)' % key[:12])
-        d = json.load(open(cp))
-        for v in d.values():
-            v['cached'] = True
-        return d
+    th = tree_hash(kc)
+
+    def cpath(n):
+        return os.path.join(CACHE, 'kani1-' + hashlib.sha256((th + ' ' + n + ' ' + ' '.join(extra_args) + target).encode()).hexdigest() + '.json')
+    done = {}
+    if not os.environ.get('VERIF_NO_CACHE'):
+        for n in names:
+            if os.path.exists(cpath(n)):
+                v = json.load(open(cpath(n)))
+                v['cached'] = True
+                done[n] = v
+    todo = [n for n in names if n not in done]
+    if done:
+        log('kani: %d memoised result(s) for this crate tree, %d to run' % (len(done), len(todo)))
+    if not todo:
+        return done
+    res = _run_harnesses_now(kc, todo, work, log, extra_args, timeout, jobs, target)
+    for n, v in res.items():
+        if v['status'] in ('success', 'failed'):
+            os.makedirs(CACHE, exist_ok=True)
+            json.dump(v, open(cpath(n), 'w'))
+    res.update(done)
+    return res
+
+
+def _run_harnesses_now(kc, names, work, log, extra_args, timeout, jobs, target):
     cmd = ['cargo', 'kani'] + target.split() + ['-Z', 'function-contracts', '-Z', 'stubbing', '-j', str(jobs), '--output-format', 'terse'] + list(extra_args)
     for n in names:
         cmd += ['--harness', n]
@@ -229,9 +247,6 @@ def run_harnesses(names, work, log, extra_args=(), timeout=1200, jobs=8, target=
     if all(v['status'] == 'unknown' for v in res.values()):
         for n in names:
             res[n]['output'] = out[-4000:]
-    if not timed_out and all(v['status'] in ('success', 'failed') for v in res.values()):
-        os.makedirs(CACHE, exist_ok=True)
-        json.dump(res, open(cp, 'w'))
     return res
 
 
